@@ -392,6 +392,7 @@ def run(chk):
     _staletrim_rule(chk, prog)
     _fiberarity_rule(chk, prog)
     _heldacross_rule(chk, prog)
+    _marshalheld_rule(chk, prog)
 
 
 ACQUIRE = ("socket", "accept", "accept4", "open", "dup", "inotify_init1", "inotify_init", "epoll_create1", "timerfd_create",
@@ -1143,3 +1144,37 @@ def _heldacross_rule(chk, prog):
                                       "raises, the function is left by longjmp and that memory is never freed - once per call" % (
                                           x.text()[:50], fn.name, ", ".join(held)))
     chk.floor(rule, 2, n)
+
+
+def _marshalheld_rule(chk, prog):
+    """janet_marshal raises for values that cannot be marshalled (a running fiber, a stream, a C pointer ...): an
+    ordinary outcome for a user-supplied value.  A message that is being built in plain malloc memory for another
+    thread is lost on that raise - the whole buffer, once per failed call - unless the marshalling runs under
+    janet_try and the failure path releases the buffer before the error goes on."""
+    rule = "C20-MARSHALHELD"
+    chk.rule(rule, "a message marshalled into malloc memory is built under janet_try, and the buffer is freed on the failure path")
+    n = 0
+    for fn in prog.all_funcs():
+        mallocd = set()
+        for x in fn.nodes:
+            if x.k == "vardecl" and x.kids and strip_casts(x.kids[0]).k == "call" and strip_casts(x.kids[0]).callee in ("janet_malloc", "malloc", "janet_calloc"):
+                mallocd.add(x.name)
+        ms = [c for c in fn.calls("janet_marshal") if c.args and is_ref(strip_casts(c.args[0])) and strip_casts(c.args[0]).name in mallocd]
+        if not ms:
+            continue
+        n += 1
+        chk.instance(rule)
+        chk.analysed(fn)
+        order = {id(x): i for i, x in enumerate(fn.nodes)}
+        buf = strip_casts(ms[0].args[0]).name
+        tries = [x for x in fn.nodes if "janet_try" in x.macro_names() or (x.k == "call" and x.callee in ("janet_try_init", "_setjmp", "setjmp"))]
+        guarded = tries and all(min(order[id(t)] for t in tries) < order[id(c)] for c in ms)
+        frees = [c for c in fn.calls("janet_free", "free") if c.args and is_ref(strip_casts(c.args[0]), buf)]
+        if guarded and frees:
+            chk.ok(rule, "%s: `%s` is filled under janet_try and freed when marshalling fails" % (fn.name, buf))
+        else:
+            chk.violation(rule, fn.tu.name, fn.name, "unguarded:" + buf, ms[0].loc,
+                          "`%s` marshals a caller-supplied value into the malloc'ed `%s` %s: when the value cannot be marshalled the "
+                          "function is left by longjmp and the buffer with everything written so far is lost" % (
+                              ms[0].text()[:50], buf, "without janet_try" if not guarded else "and never frees it"))
+    chk.floor(rule, 1, n)
